@@ -488,7 +488,11 @@ func (c *Ctx) zeroVal(s *State, t types.Type) Val {
 			unsup("array value of non-scalar element type %s", t)
 		}
 		z := c.zeroScalar(u.Elem())
-		return ArrayV{Term: fmt.Sprintf("((as const (Array %s %s)) %s)", c.ar.idxSort(), es, z.T), Ty: t}
+		zt := z.T
+		if zt == "rnil" {
+			zt = "(mkobj 0)"
+		}
+		return ArrayV{Term: fmt.Sprintf("((as const (Array %s %s)) %s)", c.ar.idxSort(), es, zt), Ty: t}
 	case *types.Slice:
 		z := c.ar.idx(0)
 		return SliceV{"rnil", z, z, z, t}
@@ -630,6 +634,13 @@ func (c *Ctx) loadAt(s *State, heap map[string]string, p Val, t types.Type) Val 
 		}
 		es, ok := c.ar.sortOfScalar(u.Elem())
 		if !ok {
+			if u.Len() <= 8 && isAggregate(u.Elem()) {
+				fa := FixedArrV{Ty: t}
+				for i := int64(0); i < u.Len(); i++ {
+					fa.E = append(fa.E, c.loadAt(s, heap, c.elemAddr(s, ps.T, c.ar.idx(i), u.Elem()), u.Elem()))
+				}
+				return fa
+			}
 			unsup("array load of non-scalar element type %s", t)
 		}
 		name := elemHeapName(u.Elem(), "")
@@ -739,6 +750,12 @@ func (c *Ctx) storeAt(s *State, p Val, t types.Type, v Val) {
 		ps, ok := p.(Scalar)
 		if !ok {
 			unsup("store array through non-ref pointer %T", p)
+		}
+		if fa, ok := v.(FixedArrV); ok {
+			for i := range fa.E {
+				c.storeAt(s, c.elemAddr(s, ps.T, c.ar.idx(int64(i)), u.Elem()), u.Elem(), fa.E[i])
+			}
+			return
 		}
 		av, ok := v.(ArrayV)
 		if !ok {
